@@ -18,6 +18,14 @@ CLAIMED = {
             "Single faults only; a panic by unwinding is accepted for hard disk faults inside shard iteration (the store unwraps there). Trusted: FaultyLender, SimFile, shuttle."),
 }
 
+CLAIMED["C20"] = ("exploration", "4 C20", "deterministic simulation: lender histories (next/rewind/drain/heal) over a simulated Read+Seek source with short reads, EINTR, hard read errors and failing seeks; line-list reference model",
+            "Seeded search over (lender kind, input, I/O behaviour, consume/rewind history); every pass is compared item by item with an independently computed list of lines. Legal-behaviour and fault-injecting configurations are separate.",
+            "Trusted: SimSource, the line-splitting model, the real zstd/flate2 codecs as black boxes.")
+
+CLAIMED["C18"] = ("exploration", "4 C18", "deterministic simulation: push/into_shard_store/iter histories over the online store and over the offline store on a simulated disk (short I/O, EINTR, ENOSPC, EIO, failing open/seek); multiset conservation oracle",
+            "Seeded search over (types, bit triples, multisets, pass histories, disk behaviour); conservation, shard placement, shard_sizes and pass agreement are checked after every pass.",
+            "Trusted: SimFile, the multiset model. Hard disk faults may surface as Err or unwinding panic; a reported success must still conserve.")
+
 NA = {
     "C03": "pure function of (values, n, u, selection back-end): no schedule, fault, stream or shared state for a simulator to own; the concurrent-builder clause is decided under C13",
     "C04": "pure function of (sequence, query): nothing to schedule or fault",
@@ -37,8 +45,6 @@ PENDING = {
     "C10": "check not built yet in this snapshot (planned: simcheck bits world)",
     "C14": "check not built yet in this snapshot (planned: simcheck bits world)",
     "C15": "check not built yet in this snapshot (planned: simcheck serde world)",
-    "C18": "check not built yet in this snapshot (planned: simcheck sigstore world)",
-    "C20": "check not built yet in this snapshot (planned: simcheck lenders world)",
 }
 
 def repo_commits(prefix):
